@@ -27,10 +27,17 @@ class Exec(Engine):
                 if o.kind != "normal":
                     nxt.append(o)
                     continue
+                backup = o.st.fork()
                 try:
                     res = self.exec_stmt(s, fr.sub(st=o.st))
                 except Unsupported as e:
                     res = self.havoc_stmt(s, fr.sub(st=o.st), str(e))
+                except (T.StaleContract, PathBudget, KeyboardInterrupt, MemoryError, RecursionError):
+                    raise
+                except Exception as e:
+                    # the executor itself failed on this statement (a shape of code one of its models did not expect): the statement is
+                    # outside its reach - skipped from the state before it, never a crash of the check and never a verdict
+                    res = self.havoc_stmt(s, fr.sub(st=backup), f"internal: {type(e).__name__}: {e}"[:200])
                 nxt.extend(res)
             outs = nxt
             if top and fr.contract is not None and fr.contract.cuts:
